@@ -26,10 +26,14 @@ stream2: "tolerance stream" (a TEST, labelled so in the evidence): mean-centred 
          split lines; checked on the dump alone (nothing lost, masses add up, isCorrect, theta=0 sums
          within 1e-9).
 """
+import ast
 import hashlib
 import itertools
 import json
 import math
+import os
+import re
+import subprocess
 from fractions import Fraction
 
 import vlib
@@ -335,6 +339,109 @@ def gen_perm_cases(rng, sizes):
     return cases
 
 
+
+def shift_me(sv, k):
+    """'m:e' times 2^k"""
+    if ":" in sv:
+        m, e = sv.split(":")
+    else:
+        m, e = sv, "0"
+    return "0:0" if int(m) == 0 else "%s:%d" % (m, int(e) + k)
+
+
+SCALES = [-300, -200, -100, -60, -30, 30, 60, 100, 200, 300]
+
+
+def gen_scaled_cases(rng, count, nmixed):
+    """Scale: the structural clauses are scale-free (every theorem is for all rational inputs), and in binary64 a
+    power of two changes no mantissa.  (1) `scale`: a case of the ordinary families with root box and points
+    multiplied by 2^k, k in +-30..+-300, TOGETHER with its unscaled twin: the two real trees must have the same shape,
+    indices, counts and cum_size, and boxes / centres of mass that differ by exactly 2^k (compared here), and each must
+    equal the exact model.  (2) `scale_mixed`: a tiny cluster (spacing 2^-b) inside a huge box (half-size 2^a), a + b
+    up to 600 levels deep, near the origin or a one-bit anchor so that every cell centre is a double.  Any absolute
+    threshold in the code (depth cap, epsilon compare, minimum cell size) shows as a mismatch with the model."""
+    cases = []
+    fams = ["generic", "clustered", "collinear", "coincident", "edges", "ranges"]
+    for n_ in range(count):
+        kind = fams[n_ % len(fams)]
+        root = rng.choice(ROOTS)
+        pts = GENS[kind](rng, root, rng.choice([2, 3, 5, 8, 12, 20]))
+        order = list(range(len(pts)))
+        rng.shuffle(order)
+        base = mk_case("scale_base", root, pts, order, rng=rng, thetas=["0:0", "1:-60", "1:-3", "1:-1", "1:0"])
+        base["full"] = False
+        k = rng.choice(SCALES)
+        sc = dict(base, kind="scale", root=[shift_me(v, k) for v in base["root"]],
+                  pts=[[shift_me(a, k), shift_me(b, k)] for a, b in base["pts"]], scale=k, short=False)
+        base["twin_scale"] = k
+        cases += [base, sc]
+    for n_ in range(nmixed):
+        a = rng.choice([8, 40, 100, 300, -100, -200])
+        anchor = rng.choice(["origin", "origin", "bit", "corner"])
+        H = Fraction(2) ** a
+        if anchor == "origin":
+            # cells around the origin have one-bit centres at every depth: any spacing down to 2^-300
+            g = Fraction(2) ** rng.choice([e for e in (a - 20, a - 45, a - 100, -100, -300) if -300 <= e <= a - 8])
+            ax = ay = Fraction(0)
+        else:
+            # around H (corner) or a one-bit anchor 2^j the cell centres are 2^j -/+ 2^i: at most 48 levels below 2^j
+            j = a if anchor == "corner" else a - rng.randint(1, 3)
+            g = Fraction(2) ** (j - rng.choice([20, 30, 44]))
+            sx, sy = rng.choice([-1, 1]), rng.choice([-1, 1])
+            ax, ay = sx * Fraction(2) ** j, sy * Fraction(2) ** j
+        pts = []
+        for _ in range(rng.choice([2, 3, 4, 6])):
+            dx, dy = rng.randint(-8, 8) * g, rng.randint(-8, 8) * g
+            qx, qy = ax + dx, ay + dy
+            if abs(qx) > H:
+                qx = ax - dx
+            if abs(qy) > H:
+                qy = ay - dy
+            pts.append((qx, qy))
+        # a few points at the scale of the box
+        for _ in range(rng.randint(0, 3)):
+            pts.append((Fraction(rng.randint(-8, 8), 8) * H, Fraction(rng.randint(-8, 8), 8) * H))
+        if rng.random() < 0.3:
+            pts.append(pts[0])
+        order = list(range(len(pts)))
+        rng.shuffle(order)
+        root = (me(Fraction(0)), me(Fraction(0)), me(H), me(H))
+        c = mk_case("scale_mixed", root, pts, order, rng=rng, thetas=["0:0", "1:-60", "1:-3", "1:-1", "1:0"])
+        c["short"] = False
+        c["full"] = False
+        cases.append(c)
+    return cases
+
+
+def check_scale_twins(ctx, cases, impls, stats):
+    """a `scale` case directly follows its unscaled twin: the REAL trees must be the same up to the factor 2^k
+    (shape, size, index, count, cum_size equal; boxes and centres of mass scaled exactly; insert results equal)"""
+    for k in range(1, len(cases)):
+        c = cases[k]
+        if c.get("kind") != "scale" or cases[k - 1].get("twin_scale") != c.get("scale"):
+            continue
+        a, b = impls[k - 1], impls[k]
+        if a is None or b is None:
+            continue
+        f = 2.0 ** c["scale"]
+        stats["scaled_twins"] += 1
+        why = None
+        if a["R"] != b["R"]:
+            why = "insert() results %s vs %s" % (a["R"], b["R"])
+        elif len(a["cells"]) != len(b["cells"]):
+            why = "%d cells vs %d cells" % (len(a["cells"]), len(b["cells"]))
+        else:
+            for ci, (u, v) in enumerate(zip(a["cells"], b["cells"])):
+                if u[0] != v[0] or u[5:9] != v[5:9] or any(x * f != y for x, y in zip(u[1:5] + u[9:11], v[1:5] + v[9:11])):
+                    why = "cell %d: %r at scale 1 vs %r at scale 2^%d" % (ci, u, v, c["scale"])
+                    break
+        if why is None and (a["ai"], a["depth"], a["ok"]) != (b["ai"], b["depth"], b["ok"]):
+            why = "observers differ: %r vs %r" % ((a["ai"], a["depth"], a["ok"]), (b["ai"], b["depth"], b["ok"]))
+        if why:
+            ctx.mismatch(c, "the tree is not scale-free: the same points and root box times 2^%d give a different tree "
+                            "(an absolute threshold?): %s" % (c["scale"], why))
+
+
 def gen_tol_cases(rng, count):
     """tolerance stream (a test): random doubles through the mean-centred constructor, and non-dyadic explicit
     roots with points one ulp either side of the split lines"""
@@ -384,6 +491,8 @@ def case_line_impl(k, c):
     t += [str(len(c["order"]))] + [str(i) for i in c["order"]]
     t += [str(len(c["thetas"]))] + c["thetas"]
     t += [str(len(c["queries"]))] + [str(i) for i in c["queries"]]
+    if c.get("fm"):
+        t.append("P")           # also print the real containsPoint of every cell on every data point
     return " ".join(t) + "\n"
 
 
@@ -473,7 +582,7 @@ class Bad(Exception):
 
 def parse_impl(lines):
     """-> dict(R, cells, ok, ai, depth, forces) ; raises Bad"""
-    d = {"R": None, "cells": [], "ok": None, "ai": None, "depth": None, "F": {}, "T": None}
+    d = {"R": None, "cells": [], "ok": None, "ai": None, "depth": None, "F": {}, "T": None, "P": []}
     try:
         for line in lines:
             w = line.split()
@@ -500,6 +609,11 @@ def parse_impl(lines):
                 d["depth"] = int(w[1])
             elif w[0] == "F":
                 d["F"][(int(w[1]), int(w[2]))] = tuple(hexf(x) for x in w[3:6])
+            elif w[0] == "P":
+                row = [int(x) for x in w[3:]]
+                if len(row) != int(w[2]) or int(w[1]) != len(d["P"]):
+                    raise Bad("containsPoint matrix row is malformed")
+                d["P"].append(row)
     except (ValueError, IndexError) as ex:
         raise Bad("unparsable output: %s" % ex)
     if d["T"] is None or d["ok"] is None or d["ai"] is None or d["depth"] is None:
@@ -774,6 +888,135 @@ def crack_explains(c, d):
     return t.cracks > 0
 
 
+
+# ----------------------------------------------------------------------------- binary64 model (Coq primitive floats)
+def fhex(v):
+    """double -> Coq float literal (hexadecimal, exact)"""
+    if v != v:
+        return "nan"
+    if math.isinf(v):
+        return "infinity" if v > 0 else "neg_infinity"
+    h = v.hex()
+    return "(%s)" % h if h.startswith("-") else h
+
+
+def fm_cell(cell):
+    return "mkFCell %s %s %s %s" % tuple(fhex(v) for v in cell[1:5])
+
+
+FM_WITNESS = {"f25_crack_point_dropped": ("f25a_cell", "f25a_p", 0), "f25_crack_phantom_mass": ("fsec (fnwc f25b_cell)", "f25b_p", 1)}
+
+
+def float_model_batch(ctx, cases, impls, stats):
+    """The box arithmetic of quadtree.hpp in Coq's primitive floats (coq/QuadTree_Float_Model.v: containsPoint, the
+    child boxes x -/+ .5*hw, the crack test), evaluated by vm_compute inside one coqc run on the dumps of the REAL
+    trees of the cases marked "fm".  Returns {case number: {"children_ok": bool, "cracks": [(node, [points])],
+    "contains": [[points] per cell], "witness": bool|None}}.  A failure of coqc is a BuildError (no longer shown)."""
+    ks = [k for k, c in enumerate(cases) if c.get("fm") and impls[k] is not None and impls[k]["cells"]
+          and len(impls[k]["P"]) == len(impls[k]["cells"])]
+    if not ks:
+        return {}
+    src = ["From Coq Require Import Floats List.\nFrom TK Require Import QuadTree_Float_Model QuadTree_Proof_Float.\n"
+           "Import ListNotations.\nLocal Open Scope float_scope.\n"]
+    for k in ks:
+        c, d = cases[k], impls[k]
+        cells = d["cells"]
+        kids = tree_children(cells)
+        P = [(float(fr(a)), float(fr(b))) for a, b in c["pts"]]
+        src.append("Definition cells%d : list fcell := [%s].\n" % (k, ";\n ".join(fm_cell(x) for x in cells)))
+        src.append("Definition pts%d : list fpt := [%s].\n" % (k, "; ".join("(%s, %s)" % (fhex(a), fhex(b)) for a, b in P)))
+        nodes = []
+        for ci, ch in enumerate(kids):
+            if ch is not None:
+                nodes.append("(nth %d cells%d fcell0, [%s])" % (ci, k, "; ".join("nth %d cells%d fcell0" % (j, k) for j in ch)))
+        src.append("Definition nodes%d : list fnode := [%s].\n" % (k, ";\n ".join(nodes)))
+        wit = FM_WITNESS.get(c.get("corpus_name"))
+        w = "true"
+        if wit:
+            # the cell and the point of the theorem (QuadTree_Proof_Float.v) are in this real dump / this case
+            w = ("(existsb (fcell_same (%s)) cells%d && fsame (fst (nth %d pts%d (0, 0))) (fst %s) && "
+                 "fsame (snd (nth %d pts%d (0, 0))) (snd %s))" % (wit[0], k, wit[2], k, wit[1], wit[2], k, wit[1]))
+        src.append("Eval vm_compute in (fcase_children_ok nodes%d, %s, fcase_cracks nodes%d pts%d, "
+                   "fcase_contains cells%d pts%d).\n" % (k, w, k, k, k, k))
+    path = os.path.join(ctx.build, "C18_float_cases.v")
+    with open(path, "w") as fh:
+        fh.write("".join(src))
+    try:
+        pr = subprocess.run(["coqc", "-Q", os.path.join(ctx.verif, "coq"), "TK", "-w", "-all",
+                             "-o", os.path.join(ctx.build, "C18_float_cases.vo"), path],
+                            capture_output=True, text=True, timeout=600, cwd=ctx.build)
+    except subprocess.TimeoutExpired:
+        raise vlib.BuildError("coqc on the binary64 (PrimFloat) cases timed out")
+    if pr.returncode != 0:
+        raise vlib.BuildError("binary64 (PrimFloat) evaluation failed: " + pr.stderr[-1500:])
+    chunks = re.split(r"^\s+= ", pr.stdout, flags=re.M)[1:]
+    if len(chunks) != len(ks):
+        raise vlib.BuildError("binary64 (PrimFloat) evaluation: %d results for %d cases" % (len(chunks), len(ks)))
+    out = {}
+    for k, ch in zip(ks, chunks):
+        body = re.split(r"^\s+: ", ch, flags=re.M)[0]
+        body = " ".join(body.split()).replace(";", ",").replace("true", "True").replace("false", "False")
+        try:
+            ok, wit, cracks, contains = ast.literal_eval(body)
+        except (ValueError, SyntaxError) as ex:
+            raise vlib.BuildError("binary64 (PrimFloat) evaluation: unparsable result: %s" % ex)
+        out[k] = {"children_ok": bool(ok), "witness": bool(wit), "cracks": [(a, list(b)) for a, b in cracks],
+                  "contains": [list(r) for r in contains]}
+        stats["float_model_cases"] += 1
+        stats["float_model_cells"] += len(impls[k]["cells"])
+        stats["float_model_contains_evals"] += len(impls[k]["cells"]) * len(cases[k]["pts"])
+    return out
+
+
+def check_float_model(ctx, c, d, fm, stats):
+    """real tree vs the Coq binary64 model: child boxes bit for bit, every containsPoint decision; returns a
+    description of the first difference or None.  Also cross-checks the crack classification Python uses."""
+    cells = d["cells"]
+    if not fm["children_ok"]:
+        kids = tree_children(cells)
+        for ci, ch in enumerate(kids):
+            if ch is None:
+                continue
+            x, y, hw, hh = cells[ci][1:5]
+            want = [(x - .5 * hw, y - .5 * hh, .5 * hw, .5 * hh), (x + .5 * hw, y - .5 * hh, .5 * hw, .5 * hh),
+                    (x - .5 * hw, y + .5 * hh, .5 * hw, .5 * hh), (x + .5 * hw, y + .5 * hh, .5 * hw, .5 * hh)]
+            got = [tuple(cells[j][1:5]) for j in ch]
+            if want != got:
+                return ("cell %d box %r: the four child boxes are %r, the binary64 model of subdivide() "
+                        "(x -/+ .5*hw, y -/+ .5*hh, .5*hw, .5*hh) gives %r" % (ci, cells[ci][1:5], got, want))
+        return "child boxes differ from the binary64 model of subdivide() (QuadTree_Float_Model.fchildren_same)"
+    if fm["contains"] != d["P"]:
+        for ci, (a, b) in enumerate(zip(fm["contains"], d["P"])):
+            if a != b:
+                return ("Cell::containsPoint of cell %d (box %r) accepts the points %s, the binary64 model "
+                        "QuadTree_Float_Model.fcontains accepts %s" % (ci, cells[ci][1:5], b[:20], a[:20]))
+        return "containsPoint matrix has %d rows, model %d" % (len(d["P"]), len(fm["contains"]))
+    if c.get("corpus_name") in FM_WITNESS:
+        stats["float_model_witness_checked"] += 1
+        if not fm["witness"]:
+            return ("the witness cell / point of the theorem %s is not in the real dump of corpus case %s"
+                    % ("children_cover_binary64_refuted" if FM_WITNESS[c["corpus_name"]][2] == 0 else
+                       "phantom_mass_binary64_refuted", c["corpus_name"]))
+        if not fm["cracks"]:
+            return "the binary64 model finds no crack in the real dump of corpus case %s" % c["corpus_name"]
+    # Python's own crack classification (doubles) must be the model's
+    P = [(float(fr(a)), float(fr(b))) for a, b in c["pts"]]
+    kids = tree_children(cells)
+    mine = []
+    nn = 0
+    for ci, ch in enumerate(kids):
+        if ch is None:
+            continue
+        row = [i for i, q in enumerate(P) if fcontains(cells[ci], q) and not any(fcontains(cells[j], q) for j in ch)]
+        if row:
+            mine.append((nn, row))
+        nn += 1
+    if mine != fm["cracks"]:
+        raise RuntimeError("internal: Python doubles and Coq primitive floats disagree on the cracks: %r vs %r" % (mine, fm["cracks"]))
+    stats["float_model_cracks"] += sum(len(r) for _n, r in mine)
+    return None
+
+
 def check_impl_alone(ctx, c, d, pts, stats, report):
     """properties of the implementation's own output that need no model (both streams).
     report(why) records a violation for this case."""
@@ -797,6 +1040,11 @@ def check_impl_alone(ctx, c, d, pts, stats, report):
                 try:
                     state["crack"] = crack_explains(c, d)
                 except (RecursionError, IndexError, ValueError):
+                    state["crack"] = False
+                # ... and the Coq binary64 model (QuadTree_Float_Model.fcrack, vm_compute) must find a crack in the
+                # REAL dump: a cell that accepts a point none of its four (model-computed = dumped) children accepts
+                fmr = d.get("fm")
+                if not (fmr and fmr["children_ok"] and fmr["cracks"] and fmr["contains"] == d["P"]):
                     state["crack"] = False
             if state["crack"]:
                 if "counted" not in state:
@@ -1019,7 +1267,28 @@ def evaluate(ctx, exe, mexe, cases, stats, with_model=True, record=True):
                 d["ins"] = [i for i, b in zip(c["order"], d["R"]) if b == 1]
             else:
                 d["ins"] = list(c["order"])
+            tree_children(d["cells"])
             impls[k] = d
+        except Bad as ex:
+            report("output of the real quadtree is not a quadtree: %s" % ex)
+            impls[k] = None
+        except RecursionError:
+            report("dump of the real quadtree is absurdly deep")
+            impls[k] = None
+    # the binary64 model (Coq primitive floats) on the real dumps of the cases marked "fm"
+    for k in range(len(cases)):
+        d = impls[k]
+        if d is not None and not all(math.isfinite(v) for cell in d["cells"] for v in cell[1:5]):
+            mk_report(k)("non-finite box in the tree")
+            impls[k] = None
+    fms = float_model_batch(ctx, cases, impls, stats)
+    for k, c in enumerate(cases):
+        d = impls[k]
+        if d is None:
+            continue
+        d["fm"] = fms.get(k)
+        report = mk_report(k)
+        try:
             check_impl_alone(ctx, c, d, ptsF[k], stats, report)
         except Bad as ex:
             report("output of the real quadtree is not a quadtree: %s" % ex)
@@ -1027,6 +1296,12 @@ def evaluate(ctx, exe, mexe, cases, stats, with_model=True, record=True):
         except RecursionError:
             report("dump of the real quadtree is absurdly deep")
             impls[k] = None
+    if with_model:
+        for k, c in enumerate(cases):
+            if impls[k] is not None and impls[k].get("fm"):
+                diff = check_float_model(ctx, c, impls[k], impls[k]["fm"], stats)
+                if diff:
+                    ctx.mismatch(c, "binary64 model (Coq primitive floats): " + diff)
     # the extracted structural specification on the dumps of the exact-stream cases
     exact = [k for k, c in enumerate(cases) if not c["kind"].startswith("tol") and impls[k] is not None
              and fails[k] is None]
@@ -1060,6 +1335,7 @@ def evaluate(ctx, exe, mexe, cases, stats, with_model=True, record=True):
                     break
     check_order_independence(cases, impls, fails, ptsF, stats, mk_report)
     if with_model:
+        check_scale_twins(ctx, cases, impls, stats)
         for k, c in enumerate(cases):
             if impls[k] is not None:
                 diff = check_float_replay(ctx, c, impls[k], stats)
@@ -1415,6 +1691,8 @@ def compare(c, d, m, pts, stats):
             return "cell %d center_of_mass (%r, %r) vs model (%s, %s)" % (ci, a[9], a[10], float(b[8]), float(b[9]))
     stats["cells_compared"] += len(m["cells"])
     stats["max_depth"] = max(stats["max_depth"], m["depth"] or 0)
+    if c["kind"].startswith("scale"):
+        stats["scaled_max_depth"] = max(stats["scaled_max_depth"], m["depth"] or 0)
     stats["internal_cells"] += sum(1 for b in m["cells"] if b[0] == "N")
     stats["leaves_with_absorbed_duplicates"] += sum(1 for b in m["cells"] if b[0] == "L" and b[6] >= 2)
     if len(m["cells"]) > 1 and any(b[0] == "L" and b[6] >= 2 for b in m["cells"]):
@@ -1471,7 +1749,9 @@ def new_stats():
             "force_full": 0, "exact_ties": 0, "f25_cracks": 0, "auto_roots": 0, "bound_checks": 0, "cells_compared": 0, "max_depth": 0,
             "internal_cells": 0, "leaves_with_absorbed_duplicates": 0, "cases_split_tree_with_duplicates": 0,
             "cases_point_on_root_split_line": 0, "order_groups": 0, "order_pairs": 0, "float_replays": 0, "float_replay_forces": 0,
-            "float_replay_near_tie": 0, "grad_cases": 0, "grad_replayed": 0, "grad_exact": 0, "grad_bound": 0, "cell_count_checks": 0}
+            "float_replay_near_tie": 0, "grad_cases": 0, "grad_replayed": 0, "grad_exact": 0, "grad_bound": 0, "cell_count_checks": 0,
+            "float_model_cases": 0, "float_model_cells": 0, "float_model_contains_evals": 0, "float_model_cracks": 0,
+            "float_model_witness_checked": 0, "scaled_twins": 0, "scaled_max_depth": 0}
 
 
 def run_batch(ctx, exe, mexe, cases, stats, with_model=True):
@@ -1499,15 +1779,17 @@ def run_batch(ctx, exe, mexe, cases, stats, with_model=True):
 def budgets(ctx):
     if ctx.quick:
         return ({"generic": 80, "clustered": 60, "collinear": 60, "coincident": 80, "edges": 80, "ranges": 50,
-                 "outside": 20, "tie": 50}, [4, 5], 40)
+                 "outside": 20, "tie": 50, "scale": 36, "scale_mixed": 14}, [4, 5], 40)
     return ({"generic": 400, "clustered": 300, "collinear": 300, "coincident": 400, "edges": 400, "ranges": 300,
-             "outside": 80, "tie": 250}, [3, 4, 5, 6], 300)
+             "outside": 80, "tie": 250, "scale": 240, "scale_mixed": 80}, [3, 4, 5, 6], 300)
 
 
 def corpus_cases(ctx):
     out = []
     for name, c in ctx.corpus():
         c = dict(c)
+        c["corpus_name"] = name[:-5] if name.endswith(".json") else name
+        c["fm"] = True
         c.setdefault("kind", "corpus")
         c.setdefault("mode", "E")
         c.setdefault("thetas", TH_STD)
@@ -1534,7 +1816,13 @@ def run(ctx):
     cases += gen_cases(rng, bud, sizes=(1, 2, 3, 4, 5, 7, 9, 12, 16, 24, 40) if ctx.quick else
                        (1, 2, 3, 4, 5, 7, 9, 12, 16, 24, 40, 40, 64))
     cases += gen_perm_cases(rng, perm_sizes)
+    cases += gen_scaled_cases(rng, bud["scale"], bud["scale_mixed"])
     cases += gen_tol_cases(rng, ntol)
+    # the binary64 model (Coq primitive floats) runs on the real dump of: corpus, every tolerance-stream case, every
+    # scaled case, every 8th other case
+    for i, c in enumerate(cases):
+        if c["kind"].startswith("tol") or c["kind"].startswith("scale") or i % 8 == 0:
+            c["fm"] = True
     n = 0
     for i in range(0, len(cases), 600):
         n += run_batch(ctx, exe, mexe, cases[i:i + 600], stats)
@@ -1548,7 +1836,7 @@ def run(ctx):
         # itself violates the specification (larger budget, spec-level checks only)
         for rnd in range(6):
             b2 = {k: v * 2 for k, v in budgets(ctx)[0].items()}
-            more = gen_cases(rng, b2) + gen_tol_cases(rng, 40)
+            more = gen_cases(rng, b2) + gen_scaled_cases(rng, 24, 24) + gen_tol_cases(rng, 40)
             searched += run_batch(ctx, exe, mexe, more, stats, with_model=False)
             searched += evaluate_grad(ctx, exe, gen_grad_cases(rng, 100), stats)
             if ctx.has_violation() or ctx.elapsed() > (150 if ctx.quick else 900):
@@ -1595,6 +1883,7 @@ def replay(ctx, case):
     c.setdefault("thetas", TH_STD)
     c.setdefault("queries", list(range(len(c["pts"]))))
     c.setdefault("short", False)
+    c["fm"] = c.get("mode") != "G"
     stats = new_stats()
     if c.get("mode") == "G":
         evaluate_grad(ctx, exe, [c], stats)
